@@ -2,6 +2,7 @@ import MgProof.C11.LemmasAL
 import MgProof.C11.LemmasStack
 import MgProof.C11.LemmasLLOps
 import MgProof.C11.LemmasQueue
+import MgProof.C11.LemmasPSOps
 /-!
 # C11 — property theorems (sequence containers and pointer slot)
 
@@ -526,4 +527,202 @@ example : ∃ s, init 1 = some s ∧
   ⟨_, rfl, by decide, by decide⟩
 
 end Q
+
+/-! ## Pointer slot -/
+namespace PS
+open MgModel.C11.PS
+
+/-- the state `s` holds exactly the live entries `l` (in insertion order); the ghost
+values of the invariant (`PInv`) are the unbounded counters and the free ring -/
+def Inv (s : PS) (l : Spec) : Prop := ∃ A F fl, PInv s l A F fl
+
+/-- **Every requested capacity** (`≤ 2^31`, not only powers of two) **and every
+preset of the two 32-bit counters** (in particular `UINT_MAX`, `UINT_MAX - capacity`):
+after `muggle_pointer_slot_init` (fixed code) the slot is empty, its capacity is the
+least power of two `≥ max(request, 1)`, and the invariant holds. -/
+theorem init_inv {req : Nat} (hreq : req ≤ 2 ^ 31) (start : BitVec 32) :
+    Inv (init req start) [] ∧ ∃ k, k ≤ 31 ∧ (init req start).capacity = 2 ^ k ∧ req ≤ 2 ^ k := by
+  obtain ⟨k, hk, hc, hle⟩ := roundCap_spec hreq
+  have hinv : PInv (init req start) [] start.toNat start.toNat
+      ((List.range (2 ^ k)).map (fun j => (start.toNat + j) % 2 ^ k)) := by
+    have := inv_initWith hk start
+    simpa [init, hc] using this
+  exact ⟨⟨_, _, _, hinv⟩, k, hk, by simp [init, initWith, hc], hle⟩
+
+/-- **Indices are unique among live entries; inserts are refused exactly when full.**
+With fewer than `capacity` live entries an insert succeeds and returns an index
+below the capacity that no live entry has; the new entry is appended (insertion
+order). With `capacity` live entries it returns `MUGGLE_ERR_MEM_ALLOC` and changes
+nothing. -/
+theorem insert_spec {s : PS} {l : Spec} (inv : Inv s l) (data : Val) :
+    (l.length < s.capacity → ∃ s' k, insert s data = .ok (s', some k) ∧ k < s.capacity ∧
+        k ∉ idxs l ∧ Inv s' (l ++ [(k, data)]) ∧ s'.capacity = s.capacity) ∧
+    (l.length = s.capacity → insert s data = .ok (s, none)) ∧
+    l.length ≤ s.capacity := by
+  obtain ⟨A, F, fl, pinv⟩ := inv
+  obtain ⟨h1, h2⟩ := insert_refines pinv data
+  refine ⟨?_, h2, by have := pinv.fl_len; omega⟩
+  intro hlt
+  obtain ⟨s', k, fl', hs, hk, hkl, pinv', hcap⟩ := h1 hlt
+  exact ⟨s', k, hs, hk, hkl, ⟨_, _, _, pinv'⟩, hcap⟩
+
+/-- **Removal; double removals and out-of-range indices are refused.** `remove idx`
+answers `MUGGLE_ERR_BEYOND_RANGE` for `idx ≥ capacity`, `MUGGLE_ERR_MEM_DUPLICATE_FREE`
+when `idx` is not live (both without any effect), and otherwise `0`, after which the
+live entries are the old ones without `idx`, in the same order. -/
+theorem remove_spec {s : PS} {l : Spec} (inv : Inv s l) (idx : Nat) :
+    ∃ s', remove s idx = .ok (s', (specRemove s.capacity l idx).2) ∧
+      Inv s' (specRemove s.capacity l idx).1 ∧ s'.capacity = s.capacity := by
+  obtain ⟨A, F, fl, pinv⟩ := inv
+  obtain ⟨s', F', fl', hs, pinv', hcap⟩ := remove_refines pinv idx
+  exact ⟨s', hs, ⟨_, _, _, pinv'⟩, hcap⟩
+
+theorem specLive_filter (l : Spec) (idx : Nat) :
+    specLive (l.filter (fun a => a.1 ≠ idx)) idx = false := by
+  cases h : specLive (l.filter (fun a => a.1 ≠ idx)) idx with
+  | false => rfl
+  | true =>
+    have := (specLive_iff _ _).mp h
+    simp only [idxs, List.mem_map, List.mem_filter] at this
+    obtain ⟨e, ⟨_, he⟩, rfl⟩ := this
+    simp at he
+
+/-- on the reference side a second removal of the same index is refused -/
+theorem specRemove_twice (cap : Nat) (l : Spec) (idx : Nat) :
+    specRemove cap (specRemove cap l idx).1 idx =
+      ((specRemove cap l idx).1, if idx ≥ cap then .beyondRange else .dupFree) := by
+  by_cases hge : idx ≥ cap
+  · simp [specRemove, hge]
+  · by_cases hl : specLive l idx = true
+    · have hf := specLive_filter l idx
+      simp only [specRemove, hge, if_false, hl, if_true, hf]
+      simp
+    · have hl' : specLive l idx = false := by simpa using hl
+      simp [specRemove, hge, hl']
+
+/-- a second removal of the same index is refused and changes nothing -/
+theorem double_remove_refused {s : PS} {l : Spec} (inv : Inv s l) (idx : Nat) :
+    ∃ s', remove s idx = .ok (s', (specRemove s.capacity l idx).2) ∧
+      ∃ s'', remove s' idx = .ok (s'', if idx ≥ s.capacity then .beyondRange else .dupFree) ∧
+        Inv s'' (specRemove s.capacity l idx).1 := by
+  obtain ⟨s', hs, inv', hcap⟩ := remove_spec inv idx
+  obtain ⟨s'', hs', inv'', _⟩ := remove_spec inv' idx
+  rw [hcap, specRemove_twice] at hs' inv''
+  exact ⟨s', hs, s'', hs', inv''⟩
+
+/-- **An index resolves to its pointer until removed.** `get idx` returns the datum
+of the live entry `idx`, and NULL when `idx` is not live or out of range. -/
+theorem get_spec {s : PS} {l : Spec} (inv : Inv s l) (idx : Nat) :
+    get s idx = .ok (specGet l idx) := by
+  obtain ⟨A, F, fl, pinv⟩ := inv
+  exact get_refines pinv idx
+
+theorem get_live {s : PS} {l : Spec} (inv : Inv s l) {idx : Nat} {d : Val} (h : (idx, d) ∈ l) :
+    get s idx = .ok d := by
+  obtain ⟨A, F, fl, pinv⟩ := inv
+  rw [get_refines pinv idx]
+  congr 1
+  unfold specGet
+  cases hf : l.find? (fun e => e.1 = idx) with
+  | none =>
+    rw [List.find?_eq_none] at hf
+    exact absurd (by simp) (hf _ h)
+  | some e =>
+    have h1 := List.find?_some hf
+    have h2 := List.mem_of_find?_eq_some hf
+    obtain ⟨i, d'⟩ := e
+    have : i = idx := by simpa using h1
+    subst this
+    exact pinv.data_unique h2 h
+
+/-- **Iteration visits the live entries in insertion order.** -/
+theorem iterate_spec {s : PS} {l : Spec} (inv : Inv s l) : iterate s = .ok l := by
+  obtain ⟨A, F, fl, pinv⟩ := inv
+  exact iterate_refines pinv
+
+/-- one call conforms to the property and keeps the invariant -/
+theorem step_conforms {s : PS} {l : Spec} (inv : Inv s l) (op : Op) :
+    ∃ s' r l', step s op = .ok (s', r) ∧ Inv s' l' ∧ s'.capacity = s.capacity ∧
+      ∀ ops rs lf, Conforms s.capacity l' ops rs lf → Conforms s.capacity l (op :: ops) (r :: rs) lf := by
+  cases op with
+  | insert v =>
+    obtain ⟨h1, h2, hle⟩ := insert_spec inv v
+    by_cases hlt : l.length < s.capacity
+    · obtain ⟨s', k, hs, hk, hkl, inv', hcap⟩ := h1 hlt
+      refine ⟨s', .inserted (some k), l ++ [(k, v)], by simp [step, hs, bind, Except.bind, pure,
+        Except.pure], inv', hcap, ?_⟩
+      intro ops rs lf hc
+      refine ⟨?_, by simpa [specInsert] using hc⟩
+      have : specLive l k = false := by
+        cases h : specLive l k with
+        | false => rfl
+        | true => exact absurd ((specLive_iff _ _).mp h) hkl
+      simp [specInsertOk, hlt, hk, this]
+    · have hfull : l.length = s.capacity := by omega
+      refine ⟨s, .inserted none, l, by simp [step, h2 hfull, bind, Except.bind, pure, Except.pure],
+        inv, rfl, ?_⟩
+      intro ops rs lf hc
+      exact ⟨by simp [specInsertOk, hfull], by simpa [specInsert] using hc⟩
+  | remove i =>
+    obtain ⟨s', hs, inv', hcap⟩ := remove_spec inv i
+    exact ⟨s', .removed (specRemove s.capacity l i).2, _,
+      by simp [step, hs, bind, Except.bind, pure, Except.pure], inv', hcap,
+      fun ops rs lf hc => by simp only [Conforms]; simpa using hc⟩
+  | get i =>
+    exact ⟨s, .got (specGet l i), l,
+      by simp [step, get_spec inv i, bind, Except.bind, pure, Except.pure], inv, rfl,
+      fun ops rs lf hc => by simp only [Conforms]; simpa using hc⟩
+  | iter =>
+    exact ⟨s, .entries l, l,
+      by simp [step, iterate_spec inv, bind, Except.bind, pure, Except.pure], inv, rfl,
+      fun ops rs lf hc => by simp only [Conforms]; simpa using hc⟩
+
+/-- **Pointer slot, every history.** From any state holding the live entries `l`,
+every operation list runs without error (no out-of-bounds slot access, no broken
+link) and its answers conform to the property. -/
+theorem run_conforms (ops : List Op) : ∀ {s : PS} {l : Spec}, Inv s l →
+    ∃ s' rs l', run s ops = .ok (s', rs) ∧ Inv s' l' ∧ Conforms s.capacity l ops rs l' := by
+  induction ops with
+  | nil => intro s l inv; exact ⟨s, [], l, rfl, inv, rfl⟩
+  | cons op ops ih =>
+    intro s l inv
+    obtain ⟨s1, r, l1, hs1, inv1, hcap, hconf⟩ := step_conforms inv op
+    obtain ⟨s2, rs, l2, hs2, inv2, hc2⟩ := ih inv1
+    rw [hcap] at hc2
+    exact ⟨s2, r :: rs, l2, by simp [run, hs1, hs2, bind, Except.bind, pure, Except.pure], inv2,
+      hconf ops rs l2 hc2⟩
+
+/-- **C11, pointer slot.** For every requested capacity `≤ 2^31` (power of two or
+not) and every starting value of the two 32-bit counters (so also across their
+wrap-around at `2^32`), a slot created by the fixed `muggle_pointer_slot_init`
+answers every history of insert / remove / get / iteration as the property demands:
+indices unique among live entries, resolution until removal, refusal when full and
+of double removals, iteration in insertion order. -/
+theorem pointer_slot_conforms {req : Nat} (hreq : req ≤ 2 ^ 31) (start : BitVec 32)
+    (ops : List Op) :
+    ∃ s' rs l', run (init req start) ops = .ok (s', rs) ∧ Inv s' l' ∧
+      Conforms (init req start).capacity [] ops rs l' :=
+  run_conforms ops (init_inv hreq start).1
+
+/-- **The pinned tree violates the property for non-power-of-two requests**
+(`fixes/C11-pointer-slot-capacity.patch`): with the arrays sized by the request,
+capacity 5 and six inserts reach `pp_slots[5]`, outside the 5-entry array. -/
+theorem pointer_slot_npot_oob :
+    run (initOrig 5) [.insert 1, .insert 2, .insert 3, .insert 4, .insert 5, .insert 6]
+      = .error .oob := by rfl
+
+/-- the same history on the fixed code: capacity 8, the sixth insert succeeds -/
+example : (run (init 5) [.insert 1, .insert 2, .insert 3, .insert 4, .insert 5, .insert 6,
+      .remove 2, .remove 2, .get 3, .iter]).toOption.map (·.2)
+    = some [.inserted (some 0), .inserted (some 1), .inserted (some 2), .inserted (some 3),
+        .inserted (some 4), .inserted (some 5), .removed .ok, .removed .dupFree, .got 4,
+        .entries [(0, 1), (1, 2), (3, 4), (4, 5), (5, 6)]] := by decide
+
+/-- counters preset to `UINT_MAX`: the wrap-around changes nothing -/
+example : (run (init 2 (BitVec.ofNat 32 4294967295)) [.insert 7, .insert 8, .insert 9,
+      .remove 1, .insert 9, .iter]).toOption.map (·.2)
+    = some [.inserted (some 1), .inserted (some 0), .inserted none, .removed .ok,
+        .inserted (some 1), .entries [(0, 8), (1, 9)]] := by decide
+
+end PS
 end MgProof.C11
